@@ -51,10 +51,10 @@ def run(tier, seed):
             cases.append((cfg, evs + tail)); index.append((gi, ch))
     impl = sd.run_cases(cases)
     base = {}
-    for (gi, ch), (o, d, tb) in zip(index, impl):
+    for (gi, ch), (o, d, tb, *_) in zip(index, impl):
         if ch is None: base[gi] = o
     mc, meta = [], []
-    for (gi, ch), (cfg_e, (o, d, tb)) in zip(index, zip(cases, impl)):
+    for (gi, ch), (cfg_e, (o, d, tb, *_)) in zip(index, zip(cases, impl)):
         if ch is None: continue
         mc.append(("C07.same", enc([[[a, ar] for a, ar in o], [[a, ar] for a, ar in base[gi]]])))
         meta.append((gi, ch, o))
@@ -69,9 +69,9 @@ def run(tier, seed):
                                    "case": {"cfg": str(cfg), "request": {"hex": req.hex()}, "chunks": [c.hex() for c in ch]},
                                    "trace": {"segmented": pretty(dec(sd.enc_obs(o))), "single_read": pretty(dec(sd.enc_obs(base[gi])))}})
     # the same schedules also go through the model (correspondence)
-    mcases = [sd.model_case(c, e, tb) for (c, e), (o, d, tb) in zip(cases, impl)]
+    mcases = [sd.model_case(c, e, tb) for (c, e), (o, d, tb, *_) in zip(cases, impl)]
     out = run_model_parallel(mcases)
-    for (c, e), (o, d, tb), m in zip(cases, impl, out):
+    for (c, e), (o, d, tb, *_), m in zip(cases, impl, out):
         if m == enc(["oom"]): res.out_of_model += 1; continue
         if sd.enc_obs(o) != m:
             res.disagreements.append({"driver": "server(segmentation)", "case": describe(c, e), "model": pretty(dec(m)), "impl": pretty(dec(sd.enc_obs(o)))})
